@@ -83,12 +83,14 @@ def find(req):
     hint = (req or {}).get("extra") or {}
     first = tuple(hint.get("first", ())) if isinstance(hint, dict) else ()
     probes = [("function-level", function_level), ("confinement", lambda: P.confinement(first)), ("histories", P.histories), ("skip-rules", P.skip_rules),
-              ("oversize", archive_probe.oversize_members), ("oversize-7z", P.oversize_7z)]
+              ("oversize", archive_probe.oversize_members), ("oversize-7z", P.oversize_7z), ("declared-sizes", P.declared_sizes)]
     pref = []
     if "skip" in oid:
         pref = ["function-level", "skip-rules"]
+    elif "declared" in oid or "bytes-written" in oid:
+        pref = ["declared-sizes"]
     elif "oversize" in oid or "size" in oid:
-        pref = ["oversize", "oversize-7z"]
+        pref = ["oversize", "oversize-7z", "declared-sizes"]
     elif "temp-dir" in oid:
         pref = ["histories"]
     elif "regular" in oid or "file-system" in oid or "fs-confined" in oid or "path" in oid:
